@@ -311,4 +311,51 @@ theorem runC_spec (ix : Index) (ops : List Op) : ∀ (c : Memo Name), MemoOk (na
       simp only [runC, List.map_cons, pureAns, iterSymbolsC, iterSymbols]
       rw [this.1, ih _ this.2]
 
+/-! ### per-element cache transparency -/
+
+theorem iterElemC_spec (ix : Index) (c : Memo Name) (i : Nat) (hc : MemoOk (nameAt ix) c) :
+    (iterElemC ix c i).2 = iterElem ix i ∧ MemoOk (nameAt ix) (iterElemC ix c i).1 := by
+  unfold iterElemC iterElem
+  cases hi : ix.rels[i]? with
+  | none => exact ⟨rfl, hc⟩
+  | some s =>
+    have hg := Memo.get_spec (nameAt ix) c i hc
+    simp only [Option.bind_some]
+    exact ⟨by rw [hg.1], hg.2⟩
+
+theorem runSteps_spec (ix : Index) (steps : List Step) : ∀ (c : Memo Name), MemoOk (nameAt ix) c →
+    runSteps ix c steps = steps.map (pureStep ix) := by
+  induction steps with
+  | nil => intro c _; rfl
+  | cons st rest ih =>
+    intro c hc
+    cases st with
+    | lookup a =>
+      have := lookupC_spec ix c a hc
+      simp only [runSteps, List.map_cons, pureStep]
+      rw [this.1, ih _ this.2]
+    | elem i =>
+      have := iterElemC_spec ix c i hc
+      simp only [runSteps, List.map_cons, pureStep]
+      rw [this.1, ih _ this.2]
+
+theorem iterFrom_eq_zipIdx (ix : Index) (l : List Nat) : ∀ k : Nat,
+    iterFrom ix k l = (l.zipIdx k).filterMap (fun p => (nameAt ix p.2).map fun n => (p.1, n)) := by
+  induction l with
+  | nil => intro k; rfl
+  | cons s rest ih =>
+    intro k
+    unfold iterFrom
+    simp only [List.zipIdx_cons, List.filterMap_cons]
+    cases nameAt ix k with
+    | none => simp [ih (k + 1)]
+    | some n => simp [ih (k + 1)]
+
+/-- the elements `0..symbol_count()` put together are the enumeration -/
+theorem iterSymbols_eq_elems (ix : Index) :
+    (List.range ix.rels.length).filterMap (iterElem ix) = iterSymbols ix := by
+  have := filterMap_range_getElem? ix.rels (fun i s => (nameAt ix i).map fun n => (s, n))
+  unfold iterElem iterSymbols
+  rw [this, iterFrom_eq_zipIdx]
+
 end JitDump
